@@ -26,7 +26,7 @@ impl WhirlpoolsConfig {
         default_protocol_fee_rate > 2_500 ==> r == err::<()>(ErrorCode::ProtocolFeeRateMaxExceeded) && *final(self) == *old(self),
         default_protocol_fee_rate <= 2_500 ==> r is Ok && *final(self) == (WhirlpoolsConfig { default_protocol_fee_rate: default_protocol_fee_rate, ..*old(self) }),
 //@ end
-//@ fn state/config.rs initialize in=/^impl WhirlpoolsConfig \{/ -> r
+//@ fn state/config.rs initialize in=/^impl WhirlpoolsConfig \{/ -> r canary
     ensures
         r is Ok <==> default_protocol_fee_rate <= 2_500,
         r is Ok ==> final(self).default_protocol_fee_rate == default_protocol_fee_rate && final(self).default_protocol_fee_rate <= 2_500
@@ -50,7 +50,7 @@ impl FeeTier {
         default_fee_rate > 60_000 ==> r == err::<()>(ErrorCode::FeeRateMaxExceeded) && *final(self) == *old(self),
         default_fee_rate <= 60_000 ==> r is Ok && *final(self) == (FeeTier { default_fee_rate: default_fee_rate, ..*old(self) }),
 //@ end
-//@ fn state/fee_tier.rs initialize in=/^impl FeeTier \{/ -> r
+//@ fn state/fee_tier.rs initialize in=/^impl FeeTier \{/ -> r canary
     ensures
         r is Ok <==> (tick_spacing != 0 && default_fee_rate <= 60_000),
         tick_spacing == 0 ==> r == err::<()>(ErrorCode::InvalidTickSpacing),
@@ -84,7 +84,7 @@ impl AdaptiveFeeTier {
                     max_volatility_accumulator, tick_group_size, major_swap_threshold_ticks, ..*old(self) }))
     }),
 //@ end
-//@ fn state/adaptive_fee_tier.rs initialize in=/^impl AdaptiveFeeTier \{/ -> r
+//@ fn state/adaptive_fee_tier.rs initialize in=/^impl AdaptiveFeeTier \{/ -> r canary
     ensures
         fee_tier_index == tick_spacing ==> r == err::<()>(ErrorCode::InvalidFeeTierIndex),
         fee_tier_index != tick_spacing && tick_spacing == 0 ==> r == err::<()>(ErrorCode::InvalidTickSpacing),
@@ -111,7 +111,7 @@ impl Oracle {
     ensures is_vars_default(final(self).adaptive_fee_variables), final(self).adaptive_fee_constants == old(self).adaptive_fee_constants,
         final(self).whirlpool == old(self).whirlpool, final(self).trade_enable_timestamp == old(self).trade_enable_timestamp,
 //@ end
-//@ fn state/oracle.rs initialize in=/^impl Oracle \{/ -> r
+//@ fn state/oracle.rs initialize in=/^impl Oracle \{/ -> r canary
     ensures
         r is Ok <==> valid_constants(tick_spacing as int, filter_period as int, decay_period as int, reduction_factor as int, adaptive_fee_control_factor as int,
                     max_volatility_accumulator as int, tick_group_size as int, major_swap_threshold_ticks as int),
@@ -164,7 +164,7 @@ impl WhirlpoolRewardInfo {
 impl Whirlpool {
 /// C19: a pool is created only with ordered, distinct mints, a sqrt-price inside the protocol bounds and validated fee rates; it starts with zero
 /// liquidity, zero fee growth / protocol fees, the tick of its price, and three uninitialized rewards
-//@ fn state/whirlpool.rs initialize in=/^impl Whirlpool \{/ -> r
+//@ fn state/whirlpool.rs initialize in=/^impl Whirlpool \{/ -> r canary
     requires tick_spacing > 0,
     ensures
         !pk_lt(token_mint_a, token_mint_b) ==> r == err::<()>(ErrorCode::InvalidTokenMintOrder),
@@ -185,7 +185,7 @@ impl Whirlpool {
         proof { broadcast use ax_pk_lt_irrefl; }
 //@ end
 /// rewards are initialized in index order, each at most once
-//@ fn state/whirlpool.rs initialize_reward in=/^impl Whirlpool \{/ -> r
+//@ fn state/whirlpool.rs initialize_reward in=/^impl Whirlpool \{/ -> r canary
     ensures
         r is Ok <==> (index < 3 && !old(self).reward_infos[index as int].is_init() && forall|j: int| 0 <= j < index ==> old(self).reward_infos[j].is_init()),
         r is Err ==> r == err::<()>(ErrorCode::InvalidRewardIndex) && *final(self) == *old(self),
